@@ -246,7 +246,7 @@ func (rn *runner) mangle(src *poolEnt, kind string, del []bool, adds []addOp, fo
 		addJ = append(addJ, obj{"name": hx([]byte(a.name)), "data": hx(a.data)})
 		expect = append(expect, expectEnt{hx([]byte(a.name)), shaHex(a.data), uint64(len(a.data))})
 	}
-	cs["ops"] = obj{"delete": delNames, "add": addJ, "force64": force64}
+	cs["ops"] = obj{"delete": delNames, "delete_flags": del, "add": addJ, "force64": force64}
 	cs["expect"] = expect
 	cs["sub"] = fmt.Sprintf("%s of %d (%s): delete %d add %d force64=%v", kind, src.id, src.sub, len(delNames), len(adds), force64)
 	var ps *binpatch.PatchSet
@@ -1117,4 +1117,5 @@ func init() {
 	core.Register("c17", runC17)
 	core.Register("c17big", runC17Big)
 	core.Register("c17probe", runC17Probe)
+	core.Register("c17replay", runC17Replay)
 }
